@@ -7,7 +7,7 @@ CONSTANTS
   MaxWide = 3
   MaxWideB = 2
   MaxXPerm = 4
-  PowExps = {6, 31, 32, 33, 53, 63, 64, 65, 100, 127, 128, 255, 256, 400, 512, 1000}
+  PowExps = {6, 31, 32, 33, 53, 63, 64, 65, 100, 127, 128, 255, 256, 400, 512}
   Export = TRUE
 SPECIFICATION Spec
 INVARIANT TypeOK
